@@ -12,6 +12,7 @@
     the code then either overflows the stack ([host_selfref_diverges]) or emits an encoding that decodes to a graph
     with the object duplicated ([host_cycle_roundtrip_refuted]). *)
 From Dawn Require Import Pickle.Model Pickle.Spec Pickle.Proofs_Tree Pickle.Proofs_Term Pickle.Proofs_Heap Pickle.Proofs_HostCycle.
+From Dawn Require Import Pickle.Spec_Graph Pickle.Proofs_IsoEq Pickle.EnvPair Pickle.Proofs_EnvPair.
 Open Scope N_scope.
 
 (** Integers of EVERY magnitude (BININT1, BININT2, BININT and the decimal INT form). *)
@@ -192,6 +193,173 @@ Proof.
   - repeat constructor.
   - vm_compute. eexists; reflexivity.
 Qed.
+
+(** * [iso] is an equivalence, and the "consequently" clause for heaps
+
+    [iso] is symmetric and transitive on all graphs, and reflexive exactly on the well-formed ones ([graph_wf],
+    Pickle/Spec_Graph.v: some set of addresses contains the root's references, each of them holds an object, and
+    the contents of these objects mention only addresses of the set and no decoder-internal value). *)
+Theorem iso_sym : forall h v h' v', iso h v h' v' -> iso h' v' h v.
+Proof. exact iso_sym_proof. Qed.
+Print Assumptions iso_sym.
+
+Theorem iso_trans : forall h1 v1 h2 v2 h3 v3, iso h1 v1 h2 v2 -> iso h2 v2 h3 v3 -> iso h1 v1 h3 v3.
+Proof. exact iso_trans_proof. Qed.
+Print Assumptions iso_trans.
+
+Theorem iso_refl : forall h v, graph_wf h v -> iso h v h v.
+Proof. exact iso_refl_proof. Qed.
+Print Assumptions iso_refl.
+
+(** ... and nowhere else: the well-formed graphs are exactly the domain of [iso] *)
+Theorem iso_refl_iff : forall h v, iso h v h v <-> graph_wf h v.
+Proof. exact iso_refl_iff_proof. Qed.
+Print Assumptions iso_refl_iff.
+
+(** Encodable graphs (the hypotheses of [heap_encodable], with the object-preserving pair) are well-formed ... *)
+Theorem encodable_graph_well_formed : forall pk unp h v,
+    host_pair pk unp h -> heap_ok pk h -> val_ok h v -> graph_wf h v.
+Proof. exact encodable_graph_wf. Qed.
+Print Assumptions encodable_graph_well_formed.
+
+(** ... and so is whatever the encoder accepted under the hypotheses of [heap_roundtrip], and the graph decoded from it. *)
+Theorem roundtrip_graphs_well_formed : forall pk unp fuel h v bs,
+    wf_heap h -> host_pair pk unp h -> host_acyclic pk h -> wf_val v ->
+    encode_top pk fuel h v = Ok bs ->
+    graph_wf h v /\ exists v' h', decode unp bs = Ok (v', h') /\ graph_wf h' v'.
+Proof. exact roundtrip_graphs_wf. Qed.
+Print Assumptions roundtrip_graphs_well_formed.
+
+(** A boolean sufficient test (root and all objects of the heap are over the heap), for examples. *)
+Theorem closedb_graph_wf : forall h v, closedb h v = true -> graph_wf h v.
+Proof. exact closedb_sound. Qed.
+Print Assumptions closedb_graph_wf.
+
+(** The "consequently" clause at full strength, for value graphs with sharing, cycles and host objects: the graphs
+    decoded from the encodings of two value graphs are isomorphic exactly when the two source graphs are.  So
+    values that differ never decode to values that are equal even up to renaming of objects ... *)
+Theorem decoded_iso_iff_source_iso : forall pk unp f1 f2 h1 v1 h2 v2 bs1 bs2 v1' h1' v2' h2',
+    wf_heap h1 -> host_pair pk unp h1 -> host_acyclic pk h1 -> wf_val v1 ->
+    wf_heap h2 -> host_pair pk unp h2 -> host_acyclic pk h2 -> wf_val v2 ->
+    encode_top pk f1 h1 v1 = Ok bs1 -> encode_top pk f2 h2 v2 = Ok bs2 ->
+    decode unp bs1 = Ok (v1', h1') -> decode unp bs2 = Ok (v2', h2') ->
+    (iso h1' v1' h2' v2' <-> iso h1 v1 h2 v2).
+Proof. exact decoded_iso_iff_source_iso_proof. Qed.
+Print Assumptions decoded_iso_iff_source_iso.
+
+(** ... in the form of [tree_distinct]: two value graphs that differ (are not isomorphic) both decode, to graphs
+    that are not isomorphic; a fortiori the decoder's answers are not equal, and neither are the encodings. *)
+Theorem heap_distinct : forall pk unp f1 f2 h1 v1 h2 v2 bs1 bs2,
+    wf_heap h1 -> host_pair pk unp h1 -> host_acyclic pk h1 -> wf_val v1 ->
+    wf_heap h2 -> host_pair pk unp h2 -> host_acyclic pk h2 -> wf_val v2 ->
+    encode_top pk f1 h1 v1 = Ok bs1 -> encode_top pk f2 h2 v2 = Ok bs2 ->
+    ~ iso h1 v1 h2 v2 ->
+    (exists v1' h1' v2' h2', decode unp bs1 = Ok (v1', h1') /\ decode unp bs2 = Ok (v2', h2') /\
+                             ~ iso h1' v1' h2' v2') /\
+    decode unp bs1 <> decode unp bs2 /\ bs1 <> bs2.
+Proof. exact heap_distinct_proof. Qed.
+Print Assumptions heap_distinct.
+
+(** The hypotheses are satisfiable on a shared, cyclic graph: [ex_heap] (a list containing itself and a dict that is
+    its own value) is well-formed, hence isomorphic to itself. *)
+Example ex_graph_wf : closedb ex_heap (VTuple [VRef 0%nat; VRef 2%nat; VRef 0%nat]) = true /\
+                      iso ex_heap (VTuple [VRef 0%nat; VRef 2%nat; VRef 0%nat]) ex_heap (VTuple [VRef 0%nat; VRef 2%nat; VRef 0%nat]).
+Proof. split; [vm_compute; reflexivity|]. apply iso_refl_proof. apply closedb_sound. vm_compute. reflexivity. Qed.
+
+(** Two different graphs are told apart: a list that contains itself and two lists that contain each other have
+    the same infinite unfolding, but not the same sharing -- they are not isomorphic, satisfy every hypothesis of
+    [heap_distinct], and so decode to different (non-isomorphic) graphs. *)
+Example ex_told_apart :
+    ~ iso self_heap (VRef 0%nat) pair_heap (VRef 0%nat) /\
+    wf_heap self_heap /\ host_pair (Some obj_pickler) (Some obj_unpickler) self_heap /\ host_acyclic (Some obj_pickler) self_heap /\
+    wf_heap pair_heap /\ host_pair (Some obj_pickler) (Some obj_unpickler) pair_heap /\ host_acyclic (Some obj_pickler) pair_heap /\
+    exists bs1 bs2, encode_top (Some obj_pickler) 10 self_heap (VRef 0%nat) = Ok bs1 /\
+                    encode_top (Some obj_pickler) 10 pair_heap (VRef 0%nat) = Ok bs2 /\
+                    decode (Some obj_unpickler) bs1 = Ok (VRef 0%nat, self_heap) /\
+                    decode (Some obj_unpickler) bs2 = Ok (VRef 0%nat, pair_heap).
+Proof.
+  assert (NH : forall h, Forall (fun nd => match nd with NObj _ _ _ => False | _ => True end) h -> no_host (Some obj_pickler) h).
+  { intros h FA p nd E HI. inversion E; subst. rewrite Forall_forall in FA. specialize (FA _ HI). destruct nd; try reflexivity; contradiction. }
+  split; [exact self_pair_not_iso|].
+  split; [split; [repeat constructor|vm_compute; discriminate]|].
+  split; [apply no_host_pair; apply NH; repeat constructor|].
+  split; [apply no_host_acyclic; apply NH; repeat constructor|].
+  split; [split; [repeat constructor|vm_compute; discriminate]|].
+  split; [apply no_host_pair; apply NH; repeat constructor|].
+  split; [apply no_host_acyclic; apply NH; repeat constructor|].
+  eexists. eexists. split; [vm_compute; reflexivity|]. split; [vm_compute; reflexivity|].
+  split; vm_compute; reflexivity.
+Qed.
+
+(** * dawn's own pair: function.go envPickler / envUnpickler (Pickle/EnvPair.v)
+
+    The pair is NOT object-preserving, by design: envUnpickler turns what envPickler took apart into the plain data
+    of a fingerprint (a target into its label, a builtin, a range and the placeholders into tuples, a code object into
+    a dict, a function into that same dict with two more keys).  It satisfies [host_pair] exactly on the heaps in
+    which envPickler takes no object at all ... *)
+Theorem env_pair_host_pair_iff : forall h,
+    host_pair (Some env_pickler) (Some env_unpickler) h <-> no_host (Some env_pickler) h.
+Proof. exact env_pair_host_pair_iff_proof. Qed.
+Print Assumptions env_pair_host_pair_iff.
+
+(** ... in general: whatever bytes are decoded with envUnpickler, the decoder's heap holds lists, dicts and sets
+    only ([noobj]) -- envUnpickler never builds a host object ... *)
+Theorem env_decode_no_host_object : forall bs v h,
+    decode (Some env_unpickler) bs = Ok (v, h) -> noobj h.
+Proof. exact env_decode_no_host_object_proof. Qed.
+Print Assumptions env_decode_no_host_object.
+
+(** ... so NO value graph in which the encoder arrives at a host object (of any kind envPickler takes, or any other)
+    is isomorphic to anything the decoder returns with envUnpickler, for any input bytes -- in particular for the
+    graph's own encoding: the round trip fails for every object kind the pair handles, not for one of them. *)
+Theorem env_roundtrip_never_iso : forall h v a m n args bs v' h',
+    reach_val (Some env_pickler) h v a -> nth_error h a = Some (NObj m n args) ->
+    decode (Some env_unpickler) bs = Ok (v', h') ->
+    ~ iso h v h' v'.
+Proof. exact env_roundtrip_never_iso_proof. Qed.
+Print Assumptions env_roundtrip_never_iso.
+
+(** Witnesses, kind by kind: a target function satisfies every other hypothesis of [heap_roundtrip], is encoded,
+    and decodes to the string that is its label: no object at all ... *)
+Theorem env_target_roundtrip_refuted :
+    wf_heap target_heap /\ host_acyclic (Some env_pickler) target_heap /\ heap_ok (Some env_pickler) target_heap /\
+    exists bs, encode_top (Some env_pickler) (enc_fuel (Some env_pickler) target_heap (VRef 0%nat)) target_heap (VRef 0%nat) = Ok bs /\
+               decode (Some env_unpickler) bs = Ok (VStr lbl, []) /\
+               ~ iso target_heap (VRef 0%nat) [] (VStr lbl).
+Proof. exact env_target_roundtrip_refuted_proof. Qed.
+Print Assumptions env_target_roundtrip_refuted.
+
+(** ... a Starlark function and its code object (two objects) decode to ONE dict ... *)
+Theorem env_function_roundtrip_refuted :
+    wf_heap fun_heap /\ host_acyclic (Some env_pickler) fun_heap /\ heap_ok (Some env_pickler) fun_heap /\
+    exists bs, encode_top (Some env_pickler) (enc_fuel (Some env_pickler) fun_heap (VRef 0%nat)) fun_heap (VRef 0%nat) = Ok bs /\
+               decode (Some env_unpickler) bs = Ok (VRef 0%nat, fun_decoded) /\
+               ~ iso fun_heap (VRef 0%nat) fun_decoded (VRef 0%nat).
+Proof. exact env_function_roundtrip_refuted_proof. Qed.
+Print Assumptions env_function_roundtrip_refuted.
+
+(** ... and the "consequently" clause fails for DECODED environments: the target function and the string that is its
+    label differ, have different encodings, and decode to equal values. *)
+Theorem env_distinct_refuted :
+    exists bs1 bs2,
+      encode_top (Some env_pickler) 10 target_heap (VRef 0%nat) = Ok bs1 /\
+      encode_top (Some env_pickler) 10 [] (VStr lbl) = Ok bs2 /\
+      ~ iso target_heap (VRef 0%nat) [] (VStr lbl) /\ bs1 <> bs2 /\
+      decode (Some env_unpickler) bs1 = decode (Some env_unpickler) bs2.
+Proof. exact env_distinct_refuted_proof. Qed.
+Print Assumptions env_distinct_refuted.
+
+(** What does hold for dawn's pickler is the clause on STAMPS (the encodings under envPickler), which is what
+    function.go compares first: envPickler paired with an object-preserving unpickler satisfies [host_pair] on every
+    heap, so two value graphs with the same stamp are isomorphic -- environments that differ never have equal
+    stamps.  (Stateless part of the pickler; the "Recursive" placeholder of recursionPickler is C08's subject.) *)
+Theorem env_stamp_injective : forall f1 f2 h1 v1 h2 v2 bs,
+    wf_heap h1 -> host_acyclic (Some env_pickler) h1 -> wf_val v1 ->
+    wf_heap h2 -> host_acyclic (Some env_pickler) h2 -> wf_val v2 ->
+    encode_top (Some env_pickler) f1 h1 v1 = Ok bs -> encode_top (Some env_pickler) f2 h2 v2 = Ok bs ->
+    iso h1 v1 h2 v2.
+Proof. exact env_stamp_injective_proof. Qed.
+Print Assumptions env_stamp_injective.
 
 (** Instance isolation: several Encoders at work at the same time, their Write calls interleaved in ANY order
     ([sched]) and their encodings cut into Write calls in ANY way ([j_writes]; Pickle/Isolation.v).  An instance's
